@@ -19,7 +19,7 @@ DT_NUM = {"b": 0, "i": 1, "f": 2, "c": 3}
 BIN_OPS = ["add", "sub", "mul", "truediv", "floordiv", "pow", "lt", "le", "gt", "ge", "eq", "ne"]
 CONTRACTIONS = ["sum", "prod", "all", "any", "integrate", "mean", "var", "std"]
 # operations whose float evaluation is exact on the generated inputs (small integers / dyadic volumes): class E
-E_OPS = {"unite", "flexible_addsub", "mvdot", "ms_all", "ms_any", "msize", "mflex", "sum", "prod", "all", "any", "integrate", "vdot", "s_vdot", "s_sum", "s_prod", "s_all", "s_any",
+E_OPS = {"clip", "mclip", "unite", "flexible_addsub", "mvdot", "ms_all", "ms_any", "msize", "mflex", "sum", "prod", "all", "any", "integrate", "vdot", "s_vdot", "s_sum", "s_prod", "s_all", "s_any",
          "s_integrate", "total_volume", "scalar_weight", "un", "bin", "bins", "scale", "norm",
          "mbin", "mbins", "mun", "ms_vdot", "ms_sum", "mnorm", "weight"}
 TOL = 1e-9
@@ -74,15 +74,21 @@ def np_dtype(dt):
 
 
 def field_array(fd, shape):
+    """data of one field; "p": 4 selects the 4-byte dtypes (int32 / float32 / complex64)"""
     re = np.array([float(Fraction(v)) for v in fd["re"]], dtype=np.float64)
+    low = fd.get("p", 8) == 4
     if fd["dt"] == "c":
         im = np.array([float(Fraction(v)) for v in fd["im"]], dtype=np.float64)
-        arr = re + 1j * im
+        arr = (re + 1j * im).astype(np.complex64 if low else np.complex128)
     elif fd["dt"] == "i":
-        arr = re.astype(np.int64)
+        arr = re.astype(np.int32 if low else np.int64)
     else:
-        arr = re
+        arr = re.astype(np.float32 if low else np.float64)
     return arr.reshape(shape)
+
+
+def low_precision(case):
+    return any(fd.get("p", 8) == 4 for fd in case["fields"])
 
 
 class Built:
@@ -164,6 +170,12 @@ def model_case(case, built):
             del o["c"]
         if "ord" in o:
             o["ord"] = str(o["ord"])
+        for b, d in (("lo", "ldt"), ("hi", "hdt")):   # clip bounds: ["p/q", kind] | None
+            if b in o:
+                if o[b] is None:
+                    del o[b]
+                else:
+                    o[b], o[d] = o[b][0], DT_NUM[o[b][1]]
         ops.append(o)
     return {"fields": flds, "mfields": mfs, "ops": ops}
 
@@ -231,6 +243,10 @@ def py_scalar(c):
     return complex(float(re), float(im))
 
 
+def py_bound(b):
+    return None if b is None else py_scalar([b[0], "0", b[1]])
+
+
 def py_ord(o):
     return np.inf if str(o) == "inf" else int(o)
 
@@ -262,6 +278,8 @@ def call_impl(built, op):
             return a.s_any(), a
         if name == "msize":
             return a.size, a
+        if name == "mclip":
+            return a.clip(py_bound(op.get("lo")), py_bound(op.get("hi"))), a
         if name == "mflex":
             b = built.mfields[op["b"]]
             return (a.unite(b) if op.get("unite") else a.flexible_addsub(b, bool(op.get("neg")))), None
@@ -296,6 +314,8 @@ def call_impl(built, op):
         return (fn(c, f) if op.get("rev") else fn(f, c)), f
     if name == "scale":
         return f.scale(py_scalar(op["c"])), f
+    if name == "clip":
+        return f.clip(py_bound(op.get("lo")), py_bound(op.get("hi"))), f
     if name == "unite":
         return f.unite(built.fields[op["g"]]), f
     if name == "flexible_addsub":
@@ -338,7 +358,7 @@ def _num(s):
     return Fraction(s)
 
 
-def _close(impl_re, impl_im, m_re, m_im, sq, exact):
+def _close(impl_re, impl_im, m_re, m_im, sq, exact, TOL=TOL):
     """impl_* exact Fractions of the floats the code returned; m_* the model's exact rationals"""
     if sq:
         # the model lists the square of a real non-negative answer (std, norm, |z|)
@@ -354,7 +374,7 @@ def _close(impl_re, impl_im, m_re, m_im, sq, exact):
     return abs(float(impl_re - m_re)) <= TOL * scale and abs(float(impl_im - m_im)) <= TOL * scale
 
 
-def agree(impl, model, exact):
+def agree(impl, model, exact, tol=TOL):
     """True iff the canonical implementation result matches the model result (class E: exactly; T: 1e-9)"""
     if "error" in impl or "error" in model:
         return impl.get("error") == model.get("error")
@@ -366,16 +386,16 @@ def agree(impl, model, exact):
     if k == "mf":
         if [l[0] for l in impl["leaves"]] != [l[0] for l in model["leaves"]]:
             return False
-        return all(agree(a[1], b[1], exact) for a, b in zip(impl["leaves"], model["leaves"]))
+        return all(agree(a[1], b[1], exact, tol) for a, b in zip(impl["leaves"], model["leaves"]))
     if impl["dt"] != model["dt"]:
         return False
     sq = bool(model.get("sq"))
     if k == "s":
-        return _close(_num(impl["re"]), _num(impl["im"]), _num(model["re"]), _num(model["im"]), sq, exact)
+        return _close(_num(impl["re"]), _num(impl["im"]), _num(model["re"]), _num(model["im"]), sq, exact, tol)
     if k == "f":
         if impl["shape"] != model["shape"] or len(impl["re"]) != len(model["re"]):
             return False
-        return all(_close(_num(a), _num(b), _num(c), _num(d), sq, exact)
+        return all(_close(_num(a), _num(b), _num(c), _num(d), sq, exact, tol)
                    for a, b, c, d in zip(impl["re"], impl["im"], model["re"], model["im"]))
     return False
 
